@@ -128,3 +128,9 @@ def run(ck, fx, cg, tier):
         c14_templates.run(ck, fx, cg, tier)
     except ImportError:
         ck.note("R14.dispatch/R14.arity/R14.sugar: template rules not built yet")
+    # `a[i]` / `a[i] <- v` / operators are ordinary calls every time they are evaluated: the compiler must not treat an
+    # index or operator expression as a "plain read" that may be evaluated once for a whole array (C13's rule on the
+    # single-evaluation initializer kinds)
+    from . import shared as _sh
+    _sh.presuppose(ck, fx, cg, "C13", lambda o: o["rule"] == "R13.arrayrewrite" and "kinds evaluated once" in o["key"], "R14.sugar",
+                   "index / operator expressions are calls wherever they occur (never single-evaluation initializers)", floor=2)
